@@ -218,6 +218,13 @@ fn main() {
                 writeln!(out, "{}", text::expand_event(c)).unwrap();
             }
         }
+        // typecheck --cases F : type_check then transform on perturbed programs (C19)
+        "typecheck" => {
+            let cases = read_cases(&arg(&args, "--cases").expect("--cases"));
+            for c in &cases {
+                writeln!(out, "{}", text::typecheck_event(c)).unwrap();
+            }
+        }
         _ => {
             eprintln!("usage: rv <lin> ...");
             std::process::exit(2);
